@@ -64,6 +64,7 @@ func (c *c04) Cases(tier string, seed int64) []core.Case {
 	cs = append(cs, core.MkCase("fixed-no-volumes", p1Params{1, "fixed-no-volumes"}))
 	cs = append(cs, core.MkCase("max-99-volumes", p1Params{r.Int63(), "max99"}))
 	cs = append(cs, core.MkCase("files-plus-volumes-256", p1Params{r.Int63(), "sum256"}))
+	cs = append(cs, core.MkCase("files-255-plus-1-volume", p1Params{r.Int63(), "max255files"}))
 	cs = append(cs, core.MkCase("singular-constructed", p1Params{r.Int63(), "singular"}))
 	for i := 0; i < map[string]int{"quick": 3, "thorough": 40}[tier]; i++ {
 		cs = append(cs, core.MkCase(fmt.Sprintf("big-files-%d", i), p1Params{r.Int63(), "big"}))
@@ -364,6 +365,8 @@ func (c *c04) Run(cs core.Case) core.Result {
 		nf, nv = 3, 99
 	case p.Kind == "sum256":
 		nf, nv = 250, 6
+	case p.Kind == "max255files":
+		nf, nv = 255, 1
 	case p.Kind == "singular":
 		nf, nv = 20, 6
 	case p.Kind == "big":
@@ -391,7 +394,7 @@ func (c *c04) Run(cs core.Case) core.Result {
 			files[i].Data = scen.GenData(rng, "random", n, 16)
 		}
 	}
-	if p.Kind == "sum256" || p.Kind == "singular" {
+	if p.Kind == "sum256" || p.Kind == "singular" || p.Kind == "max255files" {
 		for i := range files {
 			if len(files[i].Data) > 300 {
 				files[i].Data = files[i].Data[:300]
@@ -442,7 +445,7 @@ func (c *c04) Run(cs core.Case) core.Result {
 	case p.Kind == "fixed-no-volumes":
 		p1Judge(r, e, vols, p1Damage{bad: map[int]string{}, lostVols: map[int]bool{1: true, 2: true}}, rng, saved, true)
 		p1Judge(r, e, vols, p1Damage{bad: map[int]string{0: "delete"}, lostVols: map[int]bool{1: true, 2: true}}, rng, saved, false)
-	case p.Kind == "max99" || p.Kind == "sum256":
+	case p.Kind == "max99" || p.Kind == "sum256" || p.Kind == "max255files":
 		// only the highest volume survives; one file lost
 		d := p1Damage{bad: map[int]string{rng.Intn(nf): "delete"}, lostVols: map[int]bool{}}
 		for v := 1; v < nv; v++ {
